@@ -65,9 +65,7 @@ def _r1(ctx, W):
             inner = d[1]
             calls = [s for s in subterms(inner) if s[0] == "call" and "rusqlite::Connection" in str(s[1]) and s[3] == W.bb]
             if calls and any(s[0] == "call" and str(s[1]).endswith("::branch") for s in subterms(inner)):
-                for v, tgt in cfg.switch_edges(bb):
-                    if v == 0:
-                        cont_edges.append((bb, tgt))
+                cont_edges.extend(discr_edges(cfg, bb, 0))
     n = 0
     for bb, idx, s in body.stmts():
         if s["p"] == (0,) and "rv" in s and s["rv"]["k"] == "agg" and s["rv"].get("variant") == "Ok":
